@@ -217,13 +217,7 @@ class Dual(Lifted):
         return s if bool(s >= 0) else -s
 
     def sqrt(s):
-        if bool(s.p == 0):
-            if not bool(s.t == 0):
-                raise NotDifferentiable("sqrt at 0 with non-zero first-order part")
-            if s.s is None:
-                raise NotDifferentiable("sqrt at 0 with unknown second-order part")
-            # sqrt(eps^2 * s) = eps * sqrt(s)
-            return Dual(0, s.s.sqrt(), None, sq=s)
+        # evaluated on demand (also the differentiability check at 0): sqrt(x)**2 must never fail or create root variables
         return _LazySqrtDual(s)
 
     def exp(s):
@@ -254,6 +248,14 @@ class _LazySqrtDual(Dual):
     def _force(self):
         if self._val is None:
             r = self._rad
+            if bool(r.p == 0):
+                if not bool(r.t == 0):
+                    raise NotDifferentiable("sqrt at 0 with non-zero first-order part")
+                if r.s is None:
+                    raise NotDifferentiable("sqrt at 0 with unknown second-order part")
+                # sqrt(eps^2 * s) = eps * sqrt(s)
+                self._val = (_t(0), r.s.sqrt(), None)
+                return self._val
             r0 = r.p.sqrt()
             r1 = r.t / (2 * r0)
             r2 = None if r.s is None else (r.s - r1 * r1) / (2 * r0)
